@@ -270,6 +270,82 @@ def encode_with_tools(ctx, items, payloads, outdir, missing):
 
 # ------------------------------------------------------------------ job making
 
+LZMA_FAMILY = ("xz", "lzma", "lzip")
+
+# Fixed witnesses of the known findings (upstream's own test files, re-run on every run; reported through ctx.violation
+# with the finding's key, i.e. as KNOWN-FINDING while KNOWN_FINDINGS.txt lists it and the defect is still there).
+WITNESSES = [
+    {"key": "lzma-undrained-dst-after-compacted-history", "dec": "xz", "file": "enwik5.xz", "oracle": "enwik5",
+     "sched": {"src": [4096], "srcmode": "view", "dst": [4096], "dstmode": "compact", "wb": "min", "close": "end", "init": 0, "prefill": 165}},
+    {"key": "lzma-undrained-dst-after-compacted-history", "dec": "lzma", "file": "enwik5.lzma", "oracle": "enwik5",
+     "sched": {"src": [4096], "srcmode": "view", "dst": [4096], "dstmode": "compact", "wb": "min", "close": "end", "init": 0, "prefill": 165}},
+    {"key": "xz-bcj-filter-resumed-after-suspension", "dec": "xz", "file": "artificial-xz-filter/xz-filter-07-9a3fb8ae-arm_start_1000.dat.xz",
+     "oracle": "artificial-xz-filter/xz-filter-07-9a3fb8ae-arm_start_1000.dat",
+     "sched": {"src": [100], "srcmode": "view", "dst": [-1], "dstmode": "grow", "wb": "min", "close": "end", "init": 0, "prefill": 165}},
+    {"key": "lzma2-uncompressed-chunk-suspends-before-short-workbuf", "dec": "xz", "file": "artificial-xz-filter/xz-filter-07-9a3fb8ae-arm.dat.xz",
+     "oracle": "artificial-xz-filter/xz-filter-07-9a3fb8ae-arm.dat",
+     "sched": {"src": [100], "srcmode": "view", "dst": [-1], "dstmode": "grow", "wb": "min", "close": "end", "init": 0, "prefill": 165}},
+]
+
+
+def xz_filter_ids(path):
+    """Filter ids of the first block of an .xz file (xz-file-format 3.1: 0x21 LZMA2, 0x03 delta, 0x04..0x0B the BCJ filters)."""
+    try:
+        b = open(path, "rb").read(256)
+        if b[:6] != b"\xfd7zXZ\x00" or len(b) < 16 or b[12] == 0:
+            return []
+        flags = b[13]
+        p = 14
+
+        def varint(p):
+            v, sh = 0, 0
+            while p < len(b):
+                v |= (b[p] & 0x7F) << sh
+                p += 1
+                if not b[p - 1] & 0x80:
+                    break
+                sh += 7
+            return v, p
+        if flags & 0x40:
+            _, p = varint(p)
+        if flags & 0x80:
+            _, p = varint(p)
+        ids = []
+        for _ in range((flags & 3) + 1):
+            fid, p = varint(p)
+            n, p = varint(p)
+            p += n
+            ids.append(fid)
+        return ids
+    except Exception:
+        return []
+
+
+def has_bcj(entry):
+    return entry["dec"] == "xz" and any(4 <= f <= 0x0B for f in xz_filter_ids(entry["file"]))
+
+
+def known_construct(t, job, events):
+    """If a rejected job is an instance of one of the three known std/lzma / std/xz constructs, its key (else None).
+    The conditions are on the recorded trace itself, so that anything else these decoders get wrong keeps its own key."""
+    if job["dec"] not in LZMA_FAMILY:
+        return None
+    calls = [e for e in events if e.get("k") == "call"]
+    if not calls:
+        return None
+    last = calls[-1]
+    saw_short_workbuf = any(c.get("st") == "$base: short workbuf" for c in calls[:-1])
+    if last.get("st") == "#base: bad workbuf length" and not saw_short_workbuf:
+        return "lzma2-uncompressed-chunk-suspends-before-short-workbuf"
+    resumed_after_output = any(c.get("out_total", 0) > 0 for c in calls[:-1])     # a call was made after output had been produced
+    if resumed_after_output and has_bcj(t["entry"]):
+        return "xz-bcj-filter-resumed-after-suspension"
+    undrained = any(c.get("dwi0", 0) > 0 for c in calls)                         # a call was entered with earlier output still in dst
+    if undrained and job.get("dstmode") == "compact":
+        return "lzma-undrained-dst-after-compacted-history"
+    return None
+
+
 class Plan:
     """Tasks: one task = one (manifest entry, schedule, driver build) = one or several chained stddrive jobs."""
 
@@ -282,11 +358,35 @@ class Plan:
         self.tasks = []
         self.jid = 0
 
-    def pick_class(self, n, out_n, cap, image=False):
+    def pick_class(self, e, n, out_n, cap, image=False):
+        """A seeded IOSchedule class for entry e whose estimated call count stays under cap.  For std/lzma, std/xz and
+        std/lzip the classes are narrowed so that the three known constructs (KNOWN_FINDINGS.txt, keys lzma-*) are not
+        drawn again and again; they are re-run as fixed witnesses instead (WITNESSES below)."""
+        if e["dec"] in LZMA_FAMILY:
+            return self.pick_lzma(e, n, out_n, cap)
         for _ in range(60):
             c = self.rng.choice(self.classes)
             if image:
                 c = dict(c, dst=[-1])
+            if stdinputs.est_calls(n, out_n, c) <= cap and not (c["src"] == [-1] and c["dst"] == [-1]):
+                return c
+        return self.rng.choice(self.oneshot)
+
+    def pick_lzma(self, e, n, out_n, cap):
+        # BCJ-filtered blocks only survive a single call; an LZMA2 stream of incompressible data starts with an
+        # uncompressed chunk (no "$short workbuf" before the first suspension): both are driven one-shot only
+        raw_start = e.get("class") in ("one", "random", "empty")
+        if raw_start or has_bcj(e):
+            return self.rng.choice(self.oneshot)
+        for _ in range(40):
+            base = self.rng.choice(self.classes)
+            r = self.rng.random()
+            if r < 0.34:
+                c = dict(base, src=[-1], dst=[4096], dstmode="compact")       # every call starts with a drained destination
+            elif r < 0.67:
+                c = dict(base, dst=[-1], dstmode="grow")                      # source split, the whole history stays in dst
+            else:
+                c = dict(base, dst=[4096], dstmode="grow")
             if stdinputs.est_calls(n, out_n, c) <= cap and not (c["src"] == [-1] and c["dst"] == [-1]):
                 return c
         return self.rng.choice(self.oneshot)
@@ -464,7 +564,7 @@ def report(ctx, plan, rej, trace_of):
             "Wuffs does not reproduce the reference (status, output or checksum)", os.path.basename(e["file"]), os.path.getsize(e["file"]), setj[:600],
             json.dumps({k: j[k] for k in j if k in ("src", "dst", "srcmode", "dstmode", "wb", "close", "init", "prefill", "parts", "skip", "quirks")}),
             t["exe"], event, diff or "", second_opinion(e))
-        key = "%s:%s:%s:%s" % (j["dec"], e["family"], ",".join(sorted(r["clauses"])), hashlib.sha256(setj.encode()).hexdigest()[:12])
+        key = known_construct(t, j, ev) or "%s:%s:%s:%s" % (j["dec"], e["family"], ",".join(sorted(r["clauses"])), hashlib.sha256(setj.encode()).hexdigest()[:12])
         if key in seen:
             continue
         seen.add(key)
@@ -503,7 +603,7 @@ def hasher_parts(rng, n, thorough):
             ps.append(",".join(str(rng.randrange(1, max(2, min(n, 2 * n // m + 2)))) for _ in range(m)) + ",*")
     if n > 4000:
         ps = [p for p in ps if p != "1"] + [str(rng.choice((3, 7, 64, 4096)))]
-    if n > 400 and "1" in ps and not thorough:
+    if n > 70 and "1" in ps and not thorough:
         ps.remove("1")
     return list(dict.fromkeys(ps))
 
@@ -574,7 +674,7 @@ def run(ctx):
     # ---- jobs
     plan = Plan(ctx, classes, exes)
     one = lambda: rng.choice(plan.oneshot)
-    cap = 1500 if thorough else 300
+    cap = 150 if thorough else 40
     for e in fman:
         fam = e["family"]
         n = os.path.getsize(e["file"])
@@ -585,7 +685,7 @@ def run(ctx):
         elif fam in ("fmt:pngfilter", "fmt:giflzw"):
             plan.add(e, "image", one(), layer="i")
             if fam == "fmt:pngfilter" and (thorough or rng.random() < 0.5):
-                plan.add(e, "image", plan.pick_class(n, 0, cap, image=True), exe="plain_nocpu", layer="i")
+                plan.add(e, "image", plan.pick_class(e, n, 0, cap, image=True), exe="plain_nocpu", layer="i")
         else:
             steps = [{"oracle": m["oracle"], "out_len": m["out_len"]} for m in e["chain"]] if e.get("chain") else None
             exe = "zdict" if e.get("dict") else "plain"
@@ -593,7 +693,7 @@ def run(ctx):
             # the small streams also byte by byte / under a random class
             small = fam != "fmt:lzw" or e["out_len"] > 4000
             if small and (thorough or rng.random() < 0.5):
-                plan.add(e, "xform", plan.pick_class(n, e["out_len"], cap), exe=exe, steps=steps, layer="i")
+                plan.add(e, "xform", plan.pick_class(e, n, e["out_len"], cap), exe=exe, steps=steps, layer="i")
     for e in entries2:
         n = os.path.getsize(e["file"])
         if e["family"] == "hash":
@@ -616,9 +716,17 @@ def run(ctx):
         exe = "zdict" if e.get("dict") else "plain"
         plan.add(e, kind, one(), exe=exe, steps=steps)
         for k in range(2 if thorough else 1):
-            c = plan.pick_class(n, e["out_len"], cap, image=(kind == "image"))
+            c = plan.pick_class(e, n, e["out_len"], cap, image=(kind == "image"))
             plan.add(e, kind, c, exe=(exe if exe == "zdict" or (k == 0 and rng.random() < 0.5) else "plain_nocpu"), steps=steps)
-    # the first xxhash task of each input has no reference: it only has to end OK; give it its own sum afterwards
+    # fixed witnesses of the known findings
+    nwit = 0
+    for w in WITNESSES:
+        fp, op = os.path.join(REPO, "test", "data", w["file"]), os.path.join(REPO, "test", "data", w["oracle"])
+        if os.path.exists(fp) and os.path.exists(op):
+            e = {"id": "witness%d" % nwit, "family": "known-witness", "class": w["key"], "dec": w["dec"], "file": fp, "oracle": op, "out_len": os.path.getsize(op),
+                 "goref": "n/a", "settings": {"file": w["file"]}, "note": "upstream test file; the expected output is the file committed next to it"}
+            plan.add(e, "xform", w["sched"], layer="witness")
+            nwit += 1
     ctx.log("%d tasks" % len(plan.tasks))
     traces = run_plan(ctx, plan)
     for (jid, ev, t, step) in traces:
@@ -633,12 +741,13 @@ def run(ctx):
     report(ctx, plan, rej, trace_of)
 
     # ---- evidence
-    fam_jobs, fam_ok, distinct = {}, {}, set()
+    fam_jobs, fam_ok, distinct, ev_fam = {}, {}, set(), {}
     rejected = {r["job"] for r in rej}
     for (jid, ev, t, step) in traces:
         e = t["entry"]
         f = e["family"] + ("" if t["kind"] != "hasher" else ":" + t["hasher"])
         fam_jobs[f] = fam_jobs.get(f, 0) + 1
+        ev_fam[e["family"]] = ev_fam.get(e["family"], 0) + len(ev)
         end = stdtrace.end_event(ev)
         if jid not in rejected and end is not None:
             fam_ok[f] = fam_ok.get(f, 0) + 1
@@ -676,6 +785,8 @@ def run(ctx):
         "jobs_per_family": fam_jobs,
         "accepted_per_family": fam_ok,
         "rejections": len(rej),
+        "known_finding_witnesses_run": nwit,
+        "events_per_family": ev_fam,
         "tools_missing": missing,
         "tool_invocations_skipped": tskipped[:20],
         "schedule_classes": len(classes),
